@@ -239,8 +239,8 @@ class Socket(base_socket.BaseSocket):
             if p is None:
                 # connection closed by client
                 break
-            pkt = packet.Packet(encoded_packet=p)
             try:
+                pkt = packet.Packet(encoded_packet=p)
                 self.receive(pkt)
             except exceptions.UnknownPacketError:  # pragma: no cover
                 pass
